@@ -284,7 +284,8 @@ def bestChainViolations (stack : List Blk) (vs : List CView) : List String :=
       | some (h, b) => !unconf && (if isV1 then v.fh == 1 else v.fh == h && v.fblk == b)
     let okRes : Bool := match r with
       | none => !isResolvedStatus v.status && v.rh == 0
-      | some (h, b) => isResolvedStatus v.status && v.rh == h && (isV1 || v.rblk == b)
+      -- v1 rows record a resolution height only for `successful` (applyFailedContracts stores none)
+      | some (h, b) => isResolvedStatus v.status && (if isV1 then (if v.status == "successful" then v.rh == h else v.rh == 0) else v.rh == h && v.rblk == b)
     if okForm && okRes then none
     else some s!"c{v.i}:host={showCV v},bestchain_formed={showK f},bestchain_resolved={showK r}"
 
